@@ -17,7 +17,7 @@ import json
 import multiprocessing
 import random
 from collections import Counter, defaultdict
-from concurrent.futures import ThreadPoolExecutor
+from concurrent.futures import ProcessPoolExecutor, ThreadPoolExecutor, as_completed
 
 from gverif import tlc
 from gverif.common import SEED, die
@@ -27,6 +27,13 @@ from gverif.props.x03_worker import case_key, layout_key, run_group
 CFG = {"quick": "FileAttrs_quick.cfg", "thorough": "FileAttrs_thorough.cfg"}
 FAMILIES = ["reg", "single", "ns", "stubs", "api", "builtin"]
 CAUSES = ["single-file-top", "stubs-elsewhere", "builtin-predicates", "dangling-in-namespace"]
+
+
+def make_pool(procs: int) -> ProcessPoolExecutor:
+    """Workers are forked right away (while the parent is small); a dying worker breaks the pool instead of hanging it."""
+    pool = ProcessPoolExecutor(procs, mp_context=multiprocessing.get_context("fork"))
+    pool.submit(int).result()
+    return pool
 
 
 def chunks(groups: list, n: int):
@@ -42,8 +49,15 @@ def replay(run: Run, cases: list, procs: int, pool) -> dict:
         groups[layout_key(c)].append((i, c))
     work = sorted(chunks(list(groups.values()), 6), key=len, reverse=True)
     stats = {"drift": 0, "checked": 0, "structure": Counter(), "kinds": Counter(), "skipped": 0, "layouts": len(groups), "loads": 0}
-    for results in pool.imap_unordered(run_group, work, chunksize=1):
+    futures = [pool.submit(run_group, w) for w in work]
+    for fut in as_completed(futures):
+        try:
+            results = fut.result()
+        except Exception as exc:  # noqa: BLE001  (BrokenProcessPool: a worker was killed / crashed)
+            die(f"X03: a replay worker died: {exc!r}")
         for i, res in results:
+            if "error" in res:
+                die(f"X03: replay worker failed: {res['error']}")
             case = cases[i]
             run.evaluated()
             if "skipped" in res:
@@ -105,11 +119,11 @@ def main(tier: str, replay_file: str | None = None):
         # the stored case carries the spec's Impl/Ref values; TLC only re-confirms that the model still exhibits its defects
         res = tlc.must(tlc.run("FileAttrs", "FileAttrs_defect.cfg", workers=1, timeout=900), allow_violations=True)
         run.add_tlc(res)
-        with multiprocessing.get_context("fork").Pool(1) as pool:
+        with make_pool(1) as pool:
             replay(run, [rec["case"]["case"]], 1, pool)
         run.finish()
     # the pool is forked before the (large) case list exists
-    with multiprocessing.get_context("fork").Pool(procs) as pool:
+    with make_pool(procs) as pool:
         with ThreadPoolExecutor(2) as ex:
             fmain = ex.submit(tlc.run, "FileAttrs", CFG[tier], workers=4 if tier == "quick" else 8, constants={"EMIT": "TRUE"}, timeout=3000, heap="6g")
             fdef = ex.submit(tlc.run, "FileAttrs", "FileAttrs_defect.cfg", workers=1, timeout=900)
